@@ -361,9 +361,15 @@ def real_numpy():
         low = r.choice([0.0, -5.0, r.uniform(-1e6, 1e6), r.uniform(-1, 1)])
         high = low + r.choice([1.0, 10.0, r.uniform(1e-3, 1e6), r.uniform(1e-3, 1.0)])
         np.random.seed(seed)
-        u = rnd.generate_uniform_random_number(low, high, size)
+        try:
+            u, uerr = rnd.generate_uniform_random_number(low, high, size), None
+        except Exception as ex:  # noqa: BLE001
+            u, uerr = None, type(ex).__name__ + ': ' + str(ex)[:200]
         n_eval += 1
-        if np.shape(u) != shape:
+        if uerr:
+            viol.append({'okey': 'uniform:raises', 'oracle': 'generate_uniform_random_number(%r, %r, %r) raised %s' % (low, high, size, uerr),
+                         'call': ['uniform', low, high, repr(size), seed]})
+        elif np.shape(u) != shape:
             viol.append({'okey': 'uniform:shape', 'oracle': 'generate_uniform_random_number(%r, %r, %r) has shape %s' % (low, high, size, np.shape(u)),
                          'call': ['uniform', low, high, repr(size), seed]})
         elif not np.all((u >= low) & (u <= high)):
@@ -373,12 +379,20 @@ def real_numpy():
             high_hits.append(['uniform', low, high, repr(size), seed])
         # gaussian
         m, sd = r.choice([0.0, r.uniform(-1e3, 1e3)]), r.choice([1.0, 0.0, r.uniform(0, 1e3), r.uniform(0, 1)])
-        np.random.seed(seed)
-        a = rnd.generate_gaussian_random_number(m, sd, size)
-        np.random.seed(seed)
-        z = rnd.generate_gaussian_random_number(0.0, 1.0, size)
+        try:
+            np.random.seed(seed)
+            a = rnd.generate_gaussian_random_number(m, sd, size)
+            np.random.seed(seed)
+            z = rnd.generate_gaussian_random_number(0.0, 1.0, size)
+            gerr = None
+        except Exception as ex:  # noqa: BLE001
+            a = z = None
+            gerr = type(ex).__name__ + ': ' + str(ex)[:200]
         n_eval += 1
-        if np.shape(a) != shape:
+        if gerr:
+            viol.append({'okey': 'gaussian:raises', 'oracle': 'generate_gaussian_random_number(%r, %r, %r) raised %s' % (m, sd, size, gerr),
+                         'call': ['gaussian', m, sd, repr(size), seed]})
+        elif np.shape(a) != shape:
             viol.append({'okey': 'gaussian:shape', 'oracle': 'generate_gaussian_random_number(%r, %r, %r) has shape %s' % (m, sd, size, np.shape(a)),
                          'call': ['gaussian', m, sd, repr(size), seed]})
         elif not np.all(np.abs(a - (m + sd * z)) <= 1e-12 * (abs(m) + np.abs(sd * z)) + 1e-300):
@@ -389,9 +403,14 @@ def real_numpy():
         prev = None
         for p in [0.0, r.uniform(0, 0.5), 0.5, r.uniform(0.5, 1), 1.0]:
             np.random.seed(seed)
-            b = dist.generate_bernoulli_distribution(p, bsize)
             n_eval += 1
             msg = None
+            try:
+                b = dist.generate_bernoulli_distribution(p, bsize)
+            except Exception as ex:  # noqa: BLE001
+                viol.append({'okey': 'bernoulli:raises', 'oracle': 'generate_bernoulli_distribution(%r, %d) raised %s: %s'
+                             % (p, bsize, type(ex).__name__, ex), 'call': ['bernoulli', p, bsize, seed]})
+                break
             if np.shape(b) != (bsize,):
                 msg = ('bernoulli:shape', 'shape %s for size %d' % (np.shape(b), bsize))
             elif not np.all((b == 0) | (b == 1)):
@@ -408,7 +427,10 @@ def real_numpy():
     # the known rounding witness: a range one ulp wide
     np.random.seed(0)
     hi1 = nextafter(1.0, 2.0)
-    w = rnd.generate_uniform_random_number(1.0, hi1, 10)
+    try:
+        w = np.asarray(rnd.generate_uniform_random_number(1.0, hi1, 10))
+    except Exception:  # noqa: BLE001
+        w = np.array([1.0])
     n_eval += 1
     if np.any(w == hi1):
         high_hits.insert(0, ['uniform', 1.0, hi1, '10', 0])
@@ -447,7 +469,18 @@ def replay(rp):
         k, msg, sw = levy_oracle(c['beta'], [c['g1'], c['g2']], c['size'], res)
         return {'res': res, 'oracle': msg, 'fails': bool(k) or sw}
     if kind == 'real':
-        call = c['call']
+        try:
+            return replay_real(c['call'])
+        except Exception as ex:  # noqa: BLE001
+            return {'fails': True, 'raised': type(ex).__name__ + ': ' + str(ex)[:300]}
+    if kind == 'wrapper':
+        pr = wrapper_probe()
+        return {'probe': [p for p in pr if not p['ok']], 'fails': any(not p['ok'] for p in pr)}
+    return {'fails': False, 'note': 'no concrete input recorded: ' + str(rp)[:400]}
+
+
+def replay_real(call):
+    if True:
         if call[0] == 'uniform':
             np.random.seed(call[4])
             size = eval(call[3])
@@ -473,10 +506,7 @@ def replay(rp):
             b0 = dist.generate_bernoulli_distribution(0.0, call[2])
             bad = bad or bool(np.any(b0 > b))
             return {'observed': [float(v) for v in b], 'fails': bool(bad)}
-    if kind == 'wrapper':
-        pr = wrapper_probe()
-        return {'probe': [p for p in pr if not p['ok']], 'fails': any(not p['ok'] for p in pr)}
-    return {'fails': False, 'note': 'no concrete input recorded: ' + str(rp)[:400]}
+    return {'fails': False, 'note': 'unknown call'}
 
 
 def main():
